@@ -174,6 +174,32 @@ pub fn run(e: &'static Engine) {
         }));
     }
     e.par(jobs);
+    // well-formed UTF-8 text (accented Latin, Greek, Cyrillic, CJK, emoji) whose BYTE length lies just above the
+    // capacity of the previous version, automatic version: the character count is smaller than the byte count, and the
+    // symbol must still carry every byte of the input (count = number of bytes) in the version the bytes need
+    let total: u32 = e.tier.pick(9600, 96000);
+    let shards = e.tier.pick(16u32, 64);
+    let mut jobs: Vec<Job> = Vec::new();
+    for _ in 0..shards {
+        jobs.push(Box::new(move |jc: &mut JobCtx| {
+            let strat = (1usize..=40, 0usize..4, 0usize..10, any::<bool>(), any::<bool>(), prop_oneof![Just(None), (0u8..8).prop_map(Some)], any::<u16>()).prop_flat_map(|(v0, li, k, fm, fl, mask, sel)| {
+                // small versions more often
+                let v = if sel % 3 == 0 { v0 } else { 1 + v0 % 9 };
+                let level = Level::from_index(li);
+                let cell = Cell { version: v, level, mode: Mode::Byte };
+                let len = (cell.lo() + k).min(cell.cap()).max(1);
+                crate::gens::utf8_text(len).prop_map(move |input| {
+                    let input = if classify(&input) == Mode::Byte { input } else { let mut i = input; i[0] = b'a'; i };
+                    BuildCase::new(input, crate::fq::Opts { mode: if fm { Some(Mode::Byte) } else { None }, level: if fl || level != Level::Q { Some(level) } else { None }, version: None, mask }).with_warm_sel(sel)
+                })
+            });
+            jc.run_prop(77 << 20, &strat, total / shards, |c| c.to_json(), |c, o| {
+                o.label("part:utf8_text_at_version_borders");
+                check(c, "byte_utf8_text", o)
+            });
+        }));
+    }
+    e.par(jobs);
     super::common::standard_parts(e, 48000, 384000, check);
     e.put("cells_total", json!(480));
     e.set_exhaustive(false, "all 480 (version, level, mode) cells with their boundary lengths are enumerated; payload content is sampled");
